@@ -5,7 +5,7 @@ Import ListNotations.
 
 Definition var := (nat * nat)%type.      (* [2]int{scope id, index} *)
 
-Inductive native := NF0 (f : fn0) | NF2 (o : binop) | NBreak.   (* opcall [3]any{fn, argc, name} *)
+Inductive native := NF0 (f : fn0) | NF2 (o : binop) | NBreak | NIndex2 | NSlice3.   (* opcall [3]any{fn, argc, name} *)
 
 Inductive instr :=
 | Inop | Ipush (c : jv) | Ipop | Idup | Iconst (c : jv)
@@ -16,12 +16,15 @@ Inductive instr :=
 | Iscope (id nvars nargs : nat) | Iret | Iiter | Iexpbegin | Iexpend
 | Ipushpc (p : nat) | Icallpc
 | Icallf (p : nat)            (* opcall with a pc: a user-defined function *)
-| Icallrec (p : nat).         (* opcallrec: a self-recursive tail call that replaces the current frame *)
+| Icallrec (p : nat)          (* opcallrec: a self-recursive tail call that replaces the current frame *)
+| Iobject (n : nat)           (* opobject: pops n (key, value) pairs, pushes the object *)
+| Iindexarray (i : nat).      (* opindexarray: index by a constant position; an error unless the value is an array or null *)
 
 (* abstract natives: total functions returning a value or an error *)
 Record natives := {
   n_index : jv -> jv -> jv + err0;             (* funcIndex2(nil, v, k) *)
   n_iter  : jv -> list jv + err0;              (* opiter on a value: elements / values by sorted key / iteratorError *)
   n_fn0   : fn0 -> jv -> jv + err0;            (* fn(x, []) *)
-  n_fn2   : binop -> jv -> jv -> jv -> jv + err0   (* fn(x, [l, r]) *)
+  n_fn2   : binop -> jv -> jv -> jv -> jv + err0;  (* fn(x, [l, r]) *)
+  n_slice : jv -> jv -> jv -> jv + err0            (* funcSlice(nil, v, end, start) *)
 }.
